@@ -8,6 +8,7 @@ require (
 	github.com/itchio/lake v0.0.0-20200305150023-cc4284ec2b2a
 	github.com/itchio/savior v0.0.0-20200618124148-6034e878d75b
 	github.com/itchio/wharf v0.0.0
+	github.com/pkg/errors v0.9.1
 )
 
 require (
@@ -29,6 +30,8 @@ require (
 	github.com/go-stack/stack v1.8.1 // indirect
 	github.com/gogs/chardet v0.0.0-20211120154057-b7413eaefb8f // indirect
 	github.com/itchio/arkive v0.0.0-20200618123031-1a30392a8cfe // indirect
+	github.com/itchio/dskompress v0.0.0-20190702113811-5e6f499be697 // indirect
+	github.com/itchio/go-brotli v0.0.0-20190702114328-3f28d645a45c // indirect
 	github.com/itchio/httpkit v0.0.0-20251231162950-9fb57e6ac916 // indirect
 	github.com/itchio/kompress v0.0.0-20200301155538-5c2eecce9e51 // indirect
 	github.com/itchio/ox v0.0.0-20200826161350-12c6ca18d236 // indirect
@@ -37,7 +40,6 @@ require (
 	github.com/mitchellh/copystructure v1.2.0 // indirect
 	github.com/mitchellh/reflectwalk v1.0.2 // indirect
 	github.com/oxtoacart/bpool v0.0.0-20190530202638-03653db5a59c // indirect
-	github.com/pkg/errors v0.9.1 // indirect
 	go.opentelemetry.io/auto/sdk v1.2.1 // indirect
 	go.opentelemetry.io/otel v1.39.0 // indirect
 	go.opentelemetry.io/otel/metric v1.39.0 // indirect
